@@ -21,11 +21,10 @@ ufunc('in_cell', ['Node'], 'Bool')
 
 
 @spec
-def queue_ok(queue):
-    """The queue lists each instance once and instance names are unique."""
-    return (forall(lambda j: implies(0 <= j and j < len(queue), qidx(queue, queue[j]) == j), 'Int') and
-            forall(lambda i, j: implies(0 <= i and i < j and j < len(queue), queue[i].name != queue[j].name),
-                   'Int', 'Int'))
+def queue_ok(queue, cell):
+    """The queue lists instances of the cell, each once."""
+    return (forall(lambda j: implies(0 <= j and j < len(queue), qidx(queue, queue[j]) == j and
+                                     queue[j].name in cell.apps and cell.apps[queue[j].name] == queue[j]), 'Int'))
 
 
 @spec
@@ -42,28 +41,34 @@ def placed_ok(a, servers):
 
 
 @spec
-def link_ok(queue, servers):
-    return forall(lambda j: implies(0 <= j and j < len(queue), placed_ok(queue[j], servers)), 'Int')
+def apps_ok(cell):
+    return forall(lambda n: implies(n in cell.apps, cell.apps[n].name == n), 'Name')
 
 
 @spec
-def back_ok(queue, servers):
+def link_ok(cell, servers):
+    """instance -> server view: every scheduled instance is unplaced or stored on the member server it names."""
+    return forall(lambda n: implies(n in cell.apps, placed_ok(cell.apps[n], servers)), 'Name')
+
+
+@spec
+def back_ok(cell, servers):
+    """server -> instance view: whatever a member server stores is the cell's instance of that name."""
     return forall(lambda n, m: implies(n in servers and m in servers[n].apps,
-                                       0 <= qidx(queue, servers[n].apps[m]) and
-                                       qidx(queue, servers[n].apps[m]) < len(queue) and
-                                       queue[qidx(queue, servers[n].apps[m])] == servers[n].apps[m]),
-                  'Name', 'Name')
+                                       m in cell.apps and cell.apps[m] == servers[n].apps[m]), 'Name', 'Name')
 
 
 @spec
-def ident_ok(queue):
-    return forall(lambda j: implies(0 <= j and j < len(queue) and queue[j].server is not None,
-                                    queue[j].identity_group_ref is None or queue[j].identity is not None), 'Int')
+def ident_ok(cell):
+    return forall(lambda n: implies(n in cell.apps and cell.apps[n].server is not None,
+                                    cell.apps[n].identity_group_ref is None or
+                                    cell.apps[n].identity is not None), 'Name')
 
 
 @spec
-def cell_inv(queue, servers):
-    return srv_ok(servers) and link_ok(queue, servers) and back_ok(queue, servers) and ident_ok(queue)
+def cell_inv(cell, servers):
+    return (apps_ok(cell) and srv_ok(servers) and link_ok(cell, servers) and back_ok(cell, servers) and
+            ident_ok(cell))
 
 
 @spec
@@ -240,18 +245,199 @@ contract(M + ':Cell._find_placements',
          types={'queue': 'List[Application]', 'servers': 'Dict[Name,Server]',
                 'evicted': 'Dict[Application,Tuple[Server,Opt[Real]]]',
                 'reversed_queue': 'List[Application]'},
-         requires=['in_cell(self)', 'queue_ok(queue)', 'srv_ok(servers)', 'link_ok(queue, servers)', 'back_ok(queue, servers)', 'ident_ok(queue)', 'cycle_ctx(servers)',
+         requires=['in_cell(self)', 'queue_ok(queue, self)', 'cell_inv(self, servers)', 'cycle_ctx(servers)',
                    'renew_ok(queue, 0)'],
-         ensures=['srv_ok(servers)', 'link_ok(queue, servers)', 'back_ok(queue, servers)', 'ident_ok(queue)', 'all_strategies_ok()', 'renew_ok(queue, 0)'],
+         ensures=['apps_ok(self)', 'srv_ok(servers)', 'link_ok(self, servers)', 'back_ok(self, servers)',
+                  'ident_ok(self)', 'all_strategies_ok()', 'strat_nodes_ok()', 'renew_ok(queue, 0)'],
          modifies=FIND_MODIFIES, props=['C01', 'C03', 'C05'])
 invariant(M + ':Cell._find_placements', 0, 'for app in queue',
-          ['srv_ok(servers)', 'link_ok(queue, servers)', 'back_ok(queue, servers)', 'ident_ok(queue)', 'all_strategies_ok()', 'strat_nodes_ok()',
+          ['srv_ok(servers)', 'link_ok(self, servers)', 'back_ok(self, servers)', 'ident_ok(self)',
+           'all_strategies_ok()', 'strat_nodes_ok()',
            'evicted_ok(evicted, queue, servers, _i)', 'renew_ok(queue, 0)',
            'implies(_i < len(queue), not queue[_i].renew)',
            'alive(placement_tracker)'])
 invariant(M + ':Cell._find_placements', 1, 'for evicted_app in reversed_queue',
-          ['srv_ok(servers)', 'link_ok(queue, servers)', 'back_ok(queue, servers)', 'ident_ok(queue)', 'all_strategies_ok()', 'strat_nodes_ok()',
+          ['srv_ok(servers)', 'link_ok(self, servers)', 'back_ok(self, servers)', 'ident_ok(self)',
+           'all_strategies_ok()', 'strat_nodes_ok()',
            'app.server is None', 'app.identity_group_ref is None or app.identity is not None',
            '_i <= len(queue) - 1 - qidx(queue, app)',
            'evicted_ok(evicted, queue, servers, qidx(queue, app) + 1)',
            'renew_ok(queue, 0)'])
+
+
+# ------------------------------------------------------------------ pre-passes of a cycle
+@spec
+def weak_link(cell, servers):
+    """Between cycles an instance may still name a server that has left the cell."""
+    return forall(lambda n: implies(n in cell.apps, cell.apps[n].server is None or
+                                    cell.apps[n].server not in servers or
+                                    placed_ok(cell.apps[n], servers)), 'Name')
+
+
+@spec
+def covers(queue, cell):
+    """`queue` enumerates the cell's instances (cell.apps.values())."""
+    return (forall(lambda j: implies(0 <= j and j < len(queue), queue[j].name in cell.apps and
+                                     cell.apps[queue[j].name] == queue[j]), 'Int') and
+            forall(lambda n: implies(n in cell.apps, 0 <= qidx(queue, cell.apps[n]) and
+                                     qidx(queue, cell.apps[n]) < len(queue) and
+                                     queue[qidx(queue, cell.apps[n])] == cell.apps[n]), 'Name'))
+
+
+PREPASS_MODIFIES = [
+    ('Application.server', 'lambda a: True'), ('Application.evicted', 'lambda a: True'),
+    ('Application.unschedule', 'lambda a: True'), ('Application.placement_expiry', 'lambda a: True'),
+    ('Application.identity', 'lambda a: True'), ('IdentityGroup.available', 'lambda g: True'),
+    ('Server.apps', 'lambda r: in_cell(r)'),
+    ('Node.free_capacity', 'lambda r: True'), ('Node.affinity_counters', 'lambda r: True'),
+]
+
+contract(M + ':Cell._fix_invalid_placements',
+         types={'queue': 'List[Application]', 'servers': 'Dict[Name,Server]'},
+         requires=['covers(queue, self)', 'apps_ok(self)', 'srv_ok(servers)', 'back_ok(self, servers)',
+                   'weak_link(self, servers)'],
+         ensures=['apps_ok(self)', 'srv_ok(servers)', 'back_ok(self, servers)', 'link_ok(self, servers)'],
+         modifies=[('Application.server', 'lambda a: True'), ('Application.evicted', 'lambda a: True'),
+                   ('Application.identity', 'lambda a: True'), ('IdentityGroup.available', 'lambda g: True')],
+         props=['C01', 'C05'])
+invariant(M + ':Cell._fix_invalid_placements', 0, 'for app in queue',
+          ['srv_ok(servers)', 'back_ok(self, servers)', 'weak_link(self, servers)',
+           # instances already visited satisfy the strong link
+           'forall(lambda j: implies(0 <= j and j < _i, placed_ok(queue[j], servers)), "Int")'])
+
+contract(M + ':Cell._handle_blacklisted_apps',
+         types={'queue': 'List[Application]', 'servers': 'Dict[Name,Server]'},
+         requires=['covers(queue, self)', 'apps_ok(self)', 'srv_ok(servers)', 'back_ok(self, servers)',
+                   'link_ok(self, servers)', 'tree_ok(servers)'],
+         ensures=['apps_ok(self)', 'srv_ok(servers)', 'back_ok(self, servers)', 'link_ok(self, servers)',
+                  ('C08', 'forall(lambda n: implies(n in self.apps and self.apps[n].blacklisted, '
+                          '       self.apps[n].server is None), "Name")')],
+         modifies=PREPASS_MODIFIES, props=['C01', 'C05', 'C08'])
+invariant(M + ':Cell._handle_blacklisted_apps', 0, 'for app in queue',
+          ['srv_ok(servers)', 'back_ok(self, servers)', 'link_ok(self, servers)',
+           ('C08', 'forall(lambda j: implies(0 <= j and j < _i and queue[j].blacklisted, '
+                   '       queue[j].server is None), "Int")')])
+
+contract(M + ':Cell._fix_invalid_identities',
+         types={'queue': 'List[Application]', 'servers': 'Dict[Name,Server]'},
+         requires=['covers(queue, self)', 'apps_ok(self)', 'srv_ok(servers)', 'back_ok(self, servers)',
+                   'link_ok(self, servers)', 'tree_ok(servers)'],
+         ensures=['apps_ok(self)', 'srv_ok(servers)', 'back_ok(self, servers)', 'link_ok(self, servers)',
+                  ('C05', 'forall(lambda n: implies(n in self.apps and self.apps[n].identity is not None and '
+                          '  self.apps[n].identity_group_ref is not None, '
+                          '  self.apps[n].identity < self.apps[n].identity_group_ref.count), "Name")')],
+         modifies=PREPASS_MODIFIES, props=['C01', 'C05'])
+invariant(M + ':Cell._fix_invalid_identities', 0, 'for app in queue',
+          ['srv_ok(servers)', 'back_ok(self, servers)', 'link_ok(self, servers)',
+           ('C05', 'forall(lambda j: implies(0 <= j and j < _i and queue[j].identity is not None and '
+                   '  queue[j].identity_group_ref is not None, '
+                   '  queue[j].identity < queue[j].identity_group_ref.count), "Int")')])
+
+
+@spec
+def moved_ok(tbm, server, lo):
+    """Instances selected for removal from `server` (from position lo on): stored there, pairwise distinct."""
+    return (forall(lambda p: implies(lo <= p and p < len(tbm), tbm[p].name in server.apps and
+                                     server.apps[tbm[p].name] == tbm[p]), 'Int') and
+            forall(lambda p, q: implies(0 <= p and p < q and q < len(tbm), tbm[p].name != tbm[q].name), 'Int', 'Int'))
+
+
+contract(M + ':Cell._handle_inactive_servers',
+         types={'servers': 'Dict[Name,Server]', 'to_be_moved': 'List[Application]'},
+         requires=['apps_ok(self)', 'srv_ok(servers)', 'back_ok(self, servers)', 'link_ok(self, servers)',
+                   'tree_ok(servers)'],
+         ensures=['apps_ok(self)', 'srv_ok(servers)', 'back_ok(self, servers)', 'link_ok(self, servers)'],
+         modifies=PREPASS_MODIFIES + ['self.next_event_at'], props=['C01', 'C05', 'C08'])
+invariant(M + ':Cell._handle_inactive_servers', 0, 'for server in servers.values()',
+          ['srv_ok(servers)', 'back_ok(self, servers)', 'link_ok(self, servers)'])
+invariant(M + ':Cell._handle_inactive_servers', 1, 'for (name, app) in server.apps.items()',
+          ['srv_ok(servers)', 'back_ok(self, servers)', 'link_ok(self, servers)',
+           'server.apps == at_loop_entry(server.apps)',
+           'forall(lambda p: implies(0 <= p and p < len(to_be_moved), to_be_moved[p].name in server.apps and '
+           '       server.apps[to_be_moved[p].name] == to_be_moved[p] and _pos(to_be_moved[p].name) < _i), "Int")',
+           'forall(lambda p, q: implies(0 <= p and p < q and q < len(to_be_moved), '
+           '       _pos(to_be_moved[p].name) < _pos(to_be_moved[q].name)), "Int", "Int")'])
+invariant(M + ':Cell._handle_inactive_servers', 2, 'for app in to_be_moved',
+          ['srv_ok(servers)', 'back_ok(self, servers)', 'link_ok(self, servers)',
+           'moved_ok(to_be_moved, server, _i)'])
+
+
+# ------------------------------------------------------------------ schedule_alloc / schedule
+axiom('qidx-least-index',
+      'forall(lambda L, j: implies(0 <= j and j < len(L), 0 <= qidx(L, L[j]) and qidx(L, L[j]) <= j and '
+      '       L[qidx(L, L[j])] == L[j]), "List[Application]", "Int")',
+      note='qidx(L, x) is the least index of x in L: a definable function, its defining property is assumed')
+
+# MEMBERS: the name -> server map of the leaf servers of the cell tree (what Cell.members() returns);
+# the tree is not modified by a cycle.
+ghostvar('MEMBERS', 'Dict[Name,Server]')
+ufunc('alloc_in_cell', ['Allocation', 'Cell'], 'Bool')
+
+contract(M + ':Node.members', types={'return': 'Dict[Name,Server]'},
+         ensures=['implies(cls_is(self, "Cell"), result == MEMBERS)'], assumed=True,
+         note='recursive union over the tree; assumed to return the member map (tree ops not yet under contract)')
+contract(M + ':Node.size', types={'label': 'Opt[Name]', 'return': 'Vec'}, assumed=True,
+         note='recursive sum of capacities; pure')
+contract(M + ':Allocation.all_apps', types={'return': 'List[Application]'}, assumed=True, note='pure')
+contract(M + ':Allocation.utilization_queue',
+         types={'free_capacity': 'Vec', 'visitor': 'Opt[Int]',
+                'return': 'List[Tuple[Int,Ext,Ext,Int,Int,Application]]'},
+         ghost={'cell': ('Cell', 'self')},
+         requires=['alloc_in_cell(self, cell)'],
+         ensures=['forall(lambda j: implies(0 <= j and j < len(result), result[j][5].name in cell.apps and '
+                  '       cell.apps[result[j][5].name] == result[j][5]), "Int")',
+                  'forall(lambda i, j: implies(0 <= i and i < j and j < len(result), '
+                  '       result[i][5] != result[j][5]), "Int", "Int")'],
+         assumed=True,
+         note='C06 clause 1 (each instance of the allocation tree exactly once; instances of the tree are '
+              'the cell\'s instances of that partition): assumed here, stated and checked under C06')
+contract(M + ':Cell._record_rank_and_util',
+         types={'queue': 'List[Tuple[Int,Ext,Ext,Int,Int,Application]]'},
+         modifies=[('Application.final_rank', 'lambda a: True'), ('Application.final_util', 'lambda a: True')],
+         props=['C01', 'C06'])
+invariant(M + ':Cell._record_rank_and_util', 0, 'for item in queue', [])
+
+
+@spec
+def cycle_pre(cell, servers):
+    return (in_cell(cell) and cycle_ctx(servers) and apps_ok(cell) and srv_ok(servers) and
+            back_ok(cell, servers) and
+            forall(lambda n: implies(n in cell.apps, not cell.apps[n].renew), 'Name'))
+
+
+@spec
+def no_renew(cell):
+    return forall(lambda n: implies(n in cell.apps, not cell.apps[n].renew), 'Name')
+
+
+contract(M + ':Cell.schedule_alloc',
+         types={'allocation': 'Allocation', 'servers': 'Dict[Name,Server]',
+                'util_queue': 'List[Tuple[Int,Ext,Ext,Int,Int,Application]]', 'queue': 'List[Application]'},
+         requires=['alloc_in_cell(allocation, self)', 'cycle_pre(self, servers)', 'link_ok(self, servers)',
+                   'ident_ok(self)'],
+         ensures=['cycle_pre(self, servers)', 'link_ok(self, servers)', 'ident_ok(self)'],
+         modifies=FIND_MODIFIES + [('Application.final_rank', 'lambda a: True'),
+                                   ('Application.final_util', 'lambda a: True')],
+         props=['C01', 'C03', 'C05'])
+
+contract(M + ':Cell.schedule',
+         types={'return': 'List[Tuple[Name,Opt[Name],Opt[Real],Opt[Name],Opt[Real]]]',
+                'all_apps': 'List[Application]',
+                'before': 'List[Tuple[Name,Opt[Name],Opt[Real]]]', 'after': 'List[Tuple[Opt[Name],Opt[Real]]]'},
+         requires=['cls_is(self, "Cell")', 'cycle_pre(self, MEMBERS)', 'weak_link(self, MEMBERS)',
+                   # an instance that names a member server holds its identity (left by the previous cycle)
+                   'forall(lambda n: implies(n in self.apps and self.apps[n].server is not None and '
+                   '       self.apps[n].server in MEMBERS, self.apps[n].identity_group_ref is None or '
+                   '       self.apps[n].identity is not None), "Name")',
+                   'forall(lambda l: implies(l in self.partitions, '
+                   '       alloc_in_cell(self.partitions[l].allocation, self)), "Name")'],
+         ensures=[('C01', 'srv_ok(MEMBERS)'), ('C01', 'link_ok(self, MEMBERS)'), ('C01', 'back_ok(self, MEMBERS)'),
+                  ('C01', 'apps_ok(self)'), ('C05', 'ident_ok(self)')],
+         modifies=FIND_MODIFIES + [('Application.final_rank', 'lambda a: True'),
+                                   ('Application.final_util', 'lambda a: True'),
+                                   ('Allocation.label', 'lambda a: True'), 'self.next_event_at'],
+         props=['C01', 'C03', 'C05', 'C08'])
+invariant(M + ':Cell.schedule', 0, 'for (label, partition) in six.iteritems(self.partitions)', [])
+invariant(M + ':Cell.schedule', 1, 'for (label, partition) in six.iteritems(self.partitions)',
+          ['cycle_pre(self, servers)', 'link_ok(self, servers)', 'ident_ok(self)', 'servers == MEMBERS'])
+invariant(M + ':Cell.schedule', 2, 'for (appname, s_before, exp_before, s_after, exp_after) in placement', [])
